@@ -6,10 +6,11 @@ import Galaxy.Model.Gc
 namespace Galaxy.Gc
 open Galaxy.Generated.Gc
 
-theorem contains_exited (hst : exitedStates = ["exited", "dead"]) (s : String) :
+theorem contains_exited (hst : exitedStates = ["dead", "exited"]) (s : String) :
     exitedStates.contains s = true ↔ s = "exited" ∨ s = "dead" := by
   rw [hst]
   simp only [List.contains_iff_mem, List.mem_cons, List.not_mem_nil, or_false]
+  exact Or.comm
 
 theorem any_active_iff (sts : List CState) :
     (!(sts.any (fun s => s.waiting || s.running))) = true ↔ ∀ s ∈ sts, s.waiting = false ∧ s.running = false := by
@@ -27,7 +28,7 @@ theorem any_active_iff (sts : List CState) :
       have := ih.mpr h2
       simpa using this
 
-theorem shouldCleanup_of_dead (hst : exitedStates = ["exited", "dead"]) {o : InspectOutcome} (h : Dead o) :
+theorem shouldCleanup_of_dead (hst : exitedStates = ["dead", "exited"]) {o : InspectOutcome} (h : Dead o) :
     shouldCleanup o = true := by
   cases h with
   | dockerNotFound => rfl
@@ -37,7 +38,7 @@ theorem shouldCleanup_of_dead (hst : exitedStates = ["exited", "dead"]) {o : Ins
   | criPodGone => rfl
   | criAllTerminated sts h => simp only [shouldCleanup]; exact (any_active_iff sts).mpr h
 
-theorem dead_of_shouldCleanup (hst : exitedStates = ["exited", "dead"]) {o : InspectOutcome}
+theorem dead_of_shouldCleanup (hst : exitedStates = ["dead", "exited"]) {o : InspectOutcome}
     (h : shouldCleanup o = true) : Dead o := by
   match o, h with
   | .docker .notFound, _ => exact .dockerNotFound
@@ -55,7 +56,7 @@ theorem dead_of_shouldCleanup (hst : exitedStates = ["exited", "dead"]) {o : Ins
 theorem not_shouldCleanup_of_error {o : InspectOutcome} (h : RuntimeError o) : shouldCleanup o = false := by
   cases h <;> rfl
 
-theorem not_shouldCleanup_of_alive (hst : exitedStates = ["exited", "dead"]) {o : InspectOutcome} (h : Alive o) :
+theorem not_shouldCleanup_of_alive (hst : exitedStates = ["dead", "exited"]) {o : InspectOutcome} (h : Alive o) :
     shouldCleanup o = false := by
   cases h with
   | dockerState s h1 h2 =>
@@ -115,7 +116,7 @@ def IsDeadIPFile (rt : Runtime) (e : Entry) : Prop :=
 def IsDeadStateFile (rt : Runtime) (e : Entry) : Prop :=
   ∃ content, e.kind = .file content ∧ Dead (rt e.name)
 
-theorem removesIP_iff (hst : exitedStates = ["exited", "dead"]) (rt : Runtime) (e : Entry) :
+theorem removesIP_iff (hst : exitedStates = ["dead", "exited"]) (rt : Runtime) (e : Entry) :
     removesIP rt e = true ↔ IsDeadIPFile rt e := by
   unfold removesIP IsDeadIPFile
   cases hk : e.kind with
@@ -132,7 +133,7 @@ theorem removesIP_iff (hst : exitedStates = ["exited", "dead"]) (rt : Runtime) (
       | false => rfl
       | true => exact absurd (String.isEmpty_iff.mp hce) h2
 
-theorem removesGC_iff (hst : exitedStates = ["exited", "dead"]) (rt : Runtime) (e : Entry) :
+theorem removesGC_iff (hst : exitedStates = ["dead", "exited"]) (rt : Runtime) (e : Entry) :
     removesGC rt e = true ↔ IsDeadStateFile rt e := by
   unfold removesGC IsDeadStateFile
   cases hk : e.kind with
